@@ -259,7 +259,7 @@ def judge(d, wm, res, tier):
     w_pos = [w for w in exp_w if w > 0]
     w_fund = min(w_pos) if w_pos else F(1)
     Tspan = 2 * 2 * math.pi / float(w_fund)
-    ts = np.linspace(0.0, Tspan, 25)
+    ts = np.linspace(-Tspan / 2, Tspan, 25)      # evaluation times before and after t = 0
 
     def synth(vals):
         y = np.zeros_like(ts)
@@ -274,6 +274,13 @@ def judge(d, wm, res, tier):
         bad = False
         for nd in nodes:
             y = np.asarray(tds.get_potential(nd)(ts), dtype=float)
+            # a single instant given as a plain float is the same function value as in the array
+            y1 = tds.get_potential(nd)(float(ts[5]))
+            if np.shape(y) != np.shape(ts) or abs(float(np.asarray(y1).reshape(-1)[0]) - y[5]) > 1e-12 * max(s_phi, abs(y[5])):
+                add_violation(res, "time_function_is_sum", dict(case, t=float(ts[5])), float(y[5]) if np.shape(y) == np.shape(ts) else list(np.shape(ts)),
+                              float(np.asarray(y1).reshape(-1)[0]) if np.shape(y) == np.shape(ts) else list(np.shape(y)), "time function of node %s answers differently for a scalar instant / returns another shape" % nd)
+                bad = True
+                break
             e = synth([(w, lines[w][0][nd]) for w in exp_w])
             if np.max(np.abs(y - e)) > rtol * s_phi * len(exp_w):
                 k = int(np.argmax(np.abs(y - e)))
